@@ -11,6 +11,7 @@ import (
 	"path/filepath"
 	"regexp"
 	"runtime"
+	"sort"
 	"strconv"
 	"strings"
 	"sync"
@@ -19,6 +20,7 @@ import (
 
 // Obligation is one verification condition: Assumptions ==> Goal.
 type Obligation struct {
+	decided string // text of the query that produced the verdict (thorough: second opinion)
 	Retried bool
 	St      *Symtab  // symbol table of the function the obligation was generated from (nil: the caller's)
 	Name    string   // e.g. A/searchNode4/ret#1/ensures#1
@@ -182,10 +184,51 @@ func Discharge(o *Obligation, st *Symtab, cfg *SolverCfg) {
 		}
 	}()
 	ctx := context.Background()
-	if cfg.Agree {
-		dischargeAgree(ctx, o, query, cfg)
+	if cfg.Agree && !o.Cover {
+		// thorough: the normal pipeline, then a second opinion. The query that was decided (full
+		// context, light context or slice) is given to the two other solvers; a 'sat' from either is
+		// a disagreement and fails the obligation, a timeout of theirs changes nothing.
+		c2 := *cfg
+		c2.Agree = false
+		c2.CacheDir = ""
+		dischargeWith(ctx, o, st, &c2, query)
+		if o.Result == "unsat" && o.decided != "" {
+			agree := []string{o.Solver}
+			type op struct {
+				sv, r string
+				d     float64
+			}
+			ch := make(chan op, 2)
+			for _, sv := range []string{"cvc5", "z3"} {
+				go func(sv string) {
+					r, _, d := runSolver(ctx, sv, o.decided, 5*time.Second, false)
+					ch <- op{sv, r, d}
+				}(sv)
+			}
+			for i := 0; i < 2; i++ {
+				a := <-ch
+				switch a.r {
+				case "unsat":
+					agree = append(agree, a.sv)
+				case "sat":
+					o.Result = "error"
+					o.Stdout = "SOLVER DISAGREEMENT: " + o.Solver + "=unsat " + a.sv + "=sat"
+				}
+			}
+			if o.Result != "unsat" {
+				return
+			}
+			sort.Strings(agree[1:])
+			o.Solver = strings.Join(agree, "+")
+		}
 		return
 	}
+	dischargeWith(ctx, o, st, cfg, query)
+}
+
+// dischargeWith: stages 0 (light context), 1 (z3 5.1 on the full query), 1b (goal-directed
+// slices), 2 (race of the three solvers). o.decided records the query text that was decided.
+func dischargeWith(ctx context.Context, o *Obligation, st *Symtab, cfg *SolverCfg, query string) {
 	if o.Cover {
 		// vacuity probe: the assumptions must not be refutable (sat, or not decided within 2 s)
 		res, _, dur := runSolver(ctx, "z3-new", query, 2*time.Second, false)
@@ -212,10 +255,11 @@ func Discharge(o *Obligation, st *Symtab, cfg *SolverCfg) {
 		}
 		if len(light) < len(o.Assume) {
 			lo := &Obligation{Assume: light, Goal: o.Goal, St: o.St}
-			r0, _, d0 := runSolver(ctx, "z3-new", lo.Query(st), 2*time.Second, false)
+			lq := lo.Query(st)
+			r0, _, d0 := runSolver(ctx, "z3-new", lq, 2*time.Second, false)
 			o.TimeS += d0
 			if r0 == "unsat" {
-				o.Result, o.Solver = "unsat", "z3-new(light)"
+				o.Result, o.Solver, o.decided = "unsat", "z3-new(light)", lq
 				return
 			}
 		}
@@ -224,7 +268,7 @@ func Discharge(o *Obligation, st *Symtab, cfg *SolverCfg) {
 	res, out, dur := runSolver(ctx, "z3-new", query, cfg.QuickTimeout, true)
 	o.TimeS += dur
 	if res == "unsat" || res == "sat" {
-		o.Result, o.Solver = res, "z3-new"
+		o.Result, o.Solver, o.decided = res, "z3-new", query
 		if res == "sat" {
 			o.Model = modelOf(out)
 		}
@@ -241,10 +285,11 @@ func Discharge(o *Obligation, st *Symtab, cfg *SolverCfg) {
 				continue
 			}
 			so := &Obligation{Assume: sub, Goal: o.Goal, St: o.St}
-			r1, _, d1 := runSolver(ctx, "z3-new", so.Query(st), cfg.QuickTimeout, false)
+			sq := so.Query(st)
+			r1, _, d1 := runSolver(ctx, "z3-new", sq, cfg.QuickTimeout, false)
 			o.TimeS += d1
 			if r1 == "unsat" {
-				o.Result, o.Solver = "unsat", fmt.Sprintf("z3-new(slice %d)", hops)
+				o.Result, o.Solver, o.decided = "unsat", fmt.Sprintf("z3-new(slice %d)", hops), sq
 				return
 			}
 		}
@@ -382,7 +427,7 @@ func DischargeAll(obs []*Obligation, st *Symtab, cfg *SolverCfg, workers int) {
 			undecided = append(undecided, o)
 		}
 	}
-	if len(undecided) == 0 || cfg.Agree || os.Getenv("VERIF_NORETRY") == "1" {
+	if len(undecided) == 0 || os.Getenv("VERIF_NORETRY") == "1" {
 		return
 	}
 	cfg2 := *cfg
